@@ -463,8 +463,22 @@ def r_transfer_restart(ctx):
     res = U.full_run(ctx, f)
     cfg = ex.cfg
 
+    # the serializer method that forgets a transfer: pops its id parameter from the table getTransmissionData works on
+    S_ = serializer_funcs(ctx)
+    gtd = S_.methods['getTransmissionData']
+    tables = set(P.self_attr(c.func.value, gtd.self_name) for c in P.calls_in(gtd) if isinstance(c.func, ast.Attribute) and c.func.attr in ('get', 'pop')) - {None}
+    cancel_names = set()
+    for m_ in P.methods_of(S_):
+        if m_ is gtd or len(m_.params) != 2:
+            continue
+        body = [x for x in m_.node.body if not (isinstance(x, ast.Expr) and isinstance(x.value, ast.Constant))]
+        if len(body) == 1 and any(isinstance(c, ast.Call) and isinstance(c.func, ast.Attribute) and c.func.attr == 'pop' and P.self_attr(c.func.value, m_.self_name) in tables
+                                  and c.args and isinstance(c.args[0], ast.Name) and c.args[0].id == m_.params[1] for c in ast.walk(body[0])):
+            cancel_names.add(m_.name)
+    ctx.require(cancel_names, 'the serializer has no method that forgets the transfer of one peer')
+
     def cancels(func):
-        return [c for c in P.calls_in(func) if isinstance(c.func, ast.Attribute) and c.func.attr.lower().startswith('canceltransmis')
+        return [c for c in P.calls_in(func) if isinstance(c.func, ast.Attribute) and c.func.attr in cancel_names
                 and P.self_attr(c.func.value, func.self_name) == R.serializer]
     # (a) sender-time cancellation under `node not in connected`, inside a loop over voters | observers
     a_ok = False
